@@ -154,7 +154,105 @@ const C: &str = string::str_concat!(&['a', 'b']);
 fn main() { let _ = (A, B, C); }
 '''
 
+C02P = ALLOW + r'''
+use konst::slice;
+fn a<'a>(s: &'a [u8], i: usize) -> (&'a [u8], &'a [u8], &'a [u8]) { (slice::slice_from(s, i), slice::slice_up_to(s, i), slice::slice_range(s, 1, i)) }
+fn b<'a>(s: &'a [u8], i: usize) -> (Option<&'a [u8]>, Option<&'a [u8]>, Option<&'a [u8]>, Option<&'a u8>) { (slice::get_from(s, i), slice::get_up_to(s, i), slice::get_range(s, 1, i), slice::get(s, i)) }
+fn c<'a>(s: &'a [u8], i: usize) -> (&'a [u8], &'a [u8]) { slice::split_at(s, i) }
+fn d<'a>(s: &'a mut [u8], i: usize) -> (&'a mut [u8], &'a mut [u8]) { slice::split_at_mut(s, i) }
+fn e<'a>(s: &'a mut [u8], i: usize) -> &'a mut [u8] { slice::slice_from_mut(s, i) }
+fn f<'a>(s: &'a mut [u8], i: usize) -> &'a mut [u8] { slice::slice_up_to_mut(s, i) }
+fn g<'a>(s: &'a mut [u8], i: usize) -> Option<&'a mut [u8]> { slice::get_range_mut(s, 1, i) }
+fn h<'a>(s: &'a mut [u8]) -> Option<(&'a mut u8, &'a mut [u8])> { slice::split_first_mut(s) }
+fn arr<'a>(s: &'a [u8]) -> Option<&'a [u8; 2]> { match slice::try_into_array::<u8, 2>(s) { Ok(a) => Some(a), Err(_) => None } }
+fn arrm<'a>(s: &'a mut [u8]) -> Option<&'a mut [u8; 2]> { match slice::try_into_array_mut::<u8, 2>(s) { Ok(a) => Some(a), Err(_) => None } }
+const D: &[u8] = &[1, 2, 3, 4, 5];
+const X: (&[u8], &[u8], Option<&[u8]>, (&[u8], &[u8])) = (slice::slice_from(D, 1), slice::slice_up_to(D, 9), slice::get_range(D, 1, 3), slice::split_at(D, 2));
+const CH: (&[[u8; 2]], &[u8]) = slice::as_chunks::<u8, 2>(D);
+const fn cf<'a, T>(s: &'a [T], i: usize) -> &'a [T] { slice::slice_range(s, i, usize::MAX) }
+const fn cm(mut a: [u8; 3]) -> [u8; 3] { let (l, r) = slice::split_at_mut(&mut a, 1); l[0] += r[1]; a }
+struct NotCopy(String);
+fn generic<'a>(s: &'a [NotCopy]) -> (&'a [NotCopy], Option<&'a NotCopy>) { (slice::slice_from(s, 1), slice::get(s, 0)) }
+fn main() { let mut v = [1u8, 2, 3]; let _ = (a(D, 1), b(D, 1), c(D, 1), X, CH, cf(D, 1), cm([1, 2, 3]), arr(&D[..2])); let _ = d(&mut v, 1); let _ = e(&mut v, 1); let _ = f(&mut v, 1); let _ = g(&mut v, 2); let _ = h(&mut v); let _ = arrm(&mut v[..2]); let _ = generic(&[]); }
+'''
+
+C0345P = ALLOW + r'''
+use konst::string;
+// results borrow the haystack, never the pattern
+fn s1<'a>(h: &'a str, p: &str) -> (Option<&'a str>, Option<&'a str>, Option<&'a str>, Option<&'a str>) { (string::find_skip(h, p), string::find_keep(h, p), string::rfind_skip(h, p), string::rfind_keep(h, p)) }
+fn s2<'a>(h: &'a str, p: &str) -> (Option<&'a str>, Option<&'a str>) { (string::strip_prefix(h, p), string::strip_suffix(h, p)) }
+fn s3<'a>(h: &'a str, p: &str) -> (&'a str, &'a str, &'a str) { (string::trim_start_matches(h, p), string::trim_end_matches(h, p), string::trim_matches(h, p)) }
+fn s4<'a>(h: &'a str, c: char) -> (Option<(&'a str, &'a str)>, Option<(&'a str, &'a str)>) { (string::split_once(h, c), string::rsplit_once(h, c)) }
+fn s5<'a>(h: &'a str) -> (&'a str, &'a str, &'a str) { (string::trim(h), string::trim_start(h), string::trim_end(h)) }
+fn s6<'a>(h: &'a str, i: usize) -> (&'a str, &'a str, &'a str, (&'a str, &'a str)) { (string::str_from(h, i), string::str_up_to(h, i), string::str_range(h, 0, i), string::split_at(h, i)) }
+fn s7<'a>(h: &'a str, i: usize) -> (Option<&'a str>, Option<&'a str>, Option<&'a str>) { (string::get_from(h, i), string::get_up_to(h, i), string::get_range(h, 0, i)) }
+fn s8(h: &str, p: &String) -> (Option<usize>, Option<usize>, bool, bool, bool) { let p: &str = p; (string::find(h, p), string::rfind(h, p), string::contains(h, p), string::starts_with(h, p), string::ends_with(h, p)) }
+fn b1<'a>(h: &'a [u8], p: &[u8]) -> (Option<&'a [u8]>, Option<&'a [u8]>, &'a [u8], &'a [u8]) { (konst::slice::bytes_strip_prefix(h, p), konst::slice::bytes_find_skip(h, p), konst::slice::bytes_trim(h), konst::slice::bytes_trim_matches(h, p)) }
+fn b2(h: &[u8]) -> (Option<usize>, Option<usize>, bool) { (konst::slice::bytes_find(h, b"ab"), konst::slice::bytes_rfind(h, &[1u8, 2][..]), konst::slice::bytes_contain(h, "x")) }
+const H: &str = "  aé-b  ";
+const C1: (Option<&str>, &str, Option<(&str, &str)>, &str, Option<&str>) = (string::find_skip(H, "é"), string::trim(H), string::split_once(H, '-'), string::str_from(H, 2), string::get_range(H, 2, 5));
+const fn cf<'a>(h: &'a str, p: &str) -> &'a str { match string::find_keep(h, p) { Some(r) => string::trim_end_matches(r, ' '), None => h } }
+const fn cb(h: &str, i: usize) -> bool { string::is_char_boundary(h, i) }
+fn main() { let p = String::from("a"); let _ = (s1(H, &p), s2(H, &p), s3(H, &p), s4(H, '-'), s5(H), s6(H, 2), s7(H, 2), s8(H, &p), b1(H.as_bytes(), b" "), b2(b"ab"), C1, cf(H, "a"), cb(H, 3)); }
+'''
+
+C121314P = ALLOW + r'''
+use konst::{Parser, parsing::{ParseError, ParseValueResult, ErrorKind, ParseDirection}, primitive, result, try_, unwrap_ctx};
+const N: (u8, i64, u128, bool) = (unwrap_ctx!(primitive::parse_u8("12")), unwrap_ctx!(primitive::parse_i64("-5")), unwrap_ctx!(primitive::parse_u128("7")), unwrap_ctx!(primitive::parse_bool("true")));
+const fn pair(s: &str) -> Result<(u32, u32), ParseError<'_>> {
+    let p = Parser::new(s);
+    let (a, p) = try_!(p.parse_u32());
+    let p = try_!(p.strip_prefix(','));
+    let (b, p) = try_!(p.trim_start().parse_u32());
+    Ok((a, b))
+}
+// the remainder and the pieces borrow the parsed string
+fn rem<'a>(s: &'a str) -> &'a str { Parser::new(s).trim().remainder() }
+fn piece<'a>(s: &'a str, d: &str) -> Option<(&'a str, &'a str)> { match Parser::new(s).split(d) { Ok((x, p)) => Some((x, p.remainder())), Err(_) => None } }
+fn rpiece<'a>(s: &'a str) -> Option<&'a str> { match Parser::new(s).rsplit_terminator(';') { Ok((x, _)) => Some(x), Err(_) => None } }
+fn keep<'a>(s: &'a str) -> Option<&'a str> { match Parser::new(s).split_keep("=") { Ok((x, _)) => Some(x), Err(_) => None } }
+fn copyable(p: Parser<'_>) -> (usize, usize) { let q = p; (p.start_offset(), q.end_offset()) }
+fn err_of<'a>(s: &'a str) -> Option<(usize, ParseDirection, ErrorKind)> { match Parser::with_start_offset(s, 4).rfind_skip("zz") { Ok(_) => None, Err(e) => { let e2 = e.copy(); Some((e2.offset(), e.error_direction(), e.kind())) } } }
+const fn all_ops(p: Parser<'_>) -> Parser<'_> { p.skip(1).skip_back(1).trim().trim_start().trim_end().trim_matches('x').trim_start_matches("y").trim_end_matches('z') }
+const fn fallible(p: Parser<'_>) -> Result<Parser<'_>, ParseError<'_>> { let p = try_!(p.find_skip("a")); let p = try_!(p.rfind_skip('b')); let p = try_!(p.strip_suffix("c")); Ok(p) }
+const fn pv(p: Parser<'_>) -> ParseValueResult<'_, i8> { p.parse_i8() }
+const P: Result<(u32, u32), ParseError<'static>> = pair("3, 4");
+fn main() { let _ = (N, pair("1,2").is_ok(), rem(" a "), piece("a-b", "-"), rpiece("a;b;"), keep("k=v"), copyable(Parser::new("ab")), err_of("abc"), all_ops(Parser::new("xyz")).remainder(), fallible(Parser::new("abc")).is_ok(), pv(Parser::new("-3")).is_ok(), P.is_ok()); }
+'''
+
+C16P = ALLOW + r'''
+macro_rules! matches { ($($t:tt)*) => { compile_error!("user matches") }; }
+macro_rules! assert { ($($t:tt)*) => { compile_error!("user assert") }; }
+macro_rules! panic { ($($t:tt)*) => { compile_error!("user panic") }; }
+macro_rules! unreachable { ($($t:tt)*) => { compile_error!("user unreachable") }; }
+use core::cmp::Ordering;
+use konst::{const_cmp, const_cmp_for, const_eq, const_eq_for, assertc_eq, assertc_ne, string, slice};
+const S1: &[u8] = &[1, 2];
+const S2: &[u8] = &[1, 3];
+const A: (bool, Ordering, bool, Ordering) = (const_eq!("a", "a"), const_cmp!(1u8, 2u8), const_eq!(Some(3i64), None), const_cmp!(S1, S2));
+const B: (bool, Ordering) = (const_eq_for!(slice; S1, S1), const_cmp_for!(slice; S1, S2));
+const C: (bool, Ordering) = (const_eq_for!(option; Some(1u8), Some(1u8)), const_cmp_for!(option; None::<u8>, Some(1u8)));
+const D: (bool, Ordering, bool, Ordering) = (string::eq_str("a", "b"), string::cmp_str("a", "b"), slice::eq_bytes(b"a", b"a"), slice::cmp_bytes(b"a", b"b"));
+const E: (bool, Ordering, bool) = (konst::slice::cmp::eq_slice_u16(&[1], &[1]), konst::slice::cmp::cmp_slice_i128(&[-1], &[1]), konst::slice::cmp::eq_slice_str(&["a"], &["a"]));
+const F: (bool, Ordering) = (konst::eq_option_str(Some("a"), Some("a")), konst::cmp_option_str(None, Some("a")));
+const _: () = { assertc_eq!("a", "a"); assertc_ne!(1u8, 2u8); };
+const fn user_cmp(a: &(u8, &str), b: &(u8, &str)) -> Ordering { konst::try_equal!(const_cmp!(a.0, b.0)); const_cmp!(a.1, b.1) }
+const T1: &[(u8, &str)] = &[(1u8, "a")];
+const T2: &[(u8, &str)] = &[(1u8, "b")];
+const G: Ordering = const_cmp_for!(slice; T1, T2, user_cmp);
+const H: (u8, &str) = (konst::min!(3u8, 4), konst::max_by_key!("ab", "c", |s| s.len()));
+fn main() { let _ = (A, B, C, D, E, F, G, H); }
+'''
+
 PROGRAMS = {
+    "C02": {"results_borrow_the_slice_and_are_const": C02P},
+    "C03": {"results_borrow_the_haystack_and_are_const": C0345P},
+    "C04": {"results_borrow_the_haystack_and_are_const": C0345P},
+    "C05": {"results_borrow_the_haystack_and_are_const": C0345P},
+    "C12": {"parser_results_borrow_the_input_and_are_const": C121314P},
+    "C13": {"parser_results_borrow_the_input_and_are_const": C121314P},
+    "C14": {"parser_results_borrow_the_input_and_are_const": C121314P},
+    "C16": {"comparison_macros_in_consts_with_user_macros_named_like_std_macros": C16P},
     "C06": {"remainder_and_pieces_outlive_the_iterator": C06},
     "C07": {"as_str_and_items_outlive_the_iterator": C07},
     "C08": {"remainder_as_slice_and_items_outlive_the_iterator": C08},
